@@ -34,7 +34,86 @@ def read_shim_log(path, pos):
     return out, pos
 
 
+def run_long(case):
+    """Long archives: more snapshots than any fixed-size index the reader might start with (1024 entries, grown on demand).  A small system writes
+    one automatic snapshot per step plus manual ones; count, every per-snapshot time, tmax and a sample of snapshots (around every power of two,
+    the last ones) are compared with the live states the shim recorded."""
+    import warnings
+    warnings.simplefilter('ignore')
+    import rebound
+    from vf import rt
+    r = random.Random(case['hseed'])
+    viol = []
+    fn = os.path.join(os.getcwd(), 'long_%d_%d.bin' % (os.getpid(), case['hseed'] % 100000))
+    log = fn + '.shimlog'
+    for p in (fn, log):
+        if os.path.exists(p):
+            os.unlink(p)
+    os.environ['VERIF_SA_LOG'] = log
+    sim = rebound.Simulation()
+    sim.add(m=1.0)
+    sim.add(m=1e-3, a=1.0, e=0.1)
+    if r.random() < 0.5:
+        sim.add(m=1e-4, a=2.2, e=0.05, f=1.0)
+    sim.integrator = r.choice(['leapfrog', 'whfast', 'ias15'])
+    sim.dt = 0.01
+    n = case['nsnap']
+    sim.save_to_file(fn, step=1, delete_file=True)
+    n_auto = n - r.choice([0, 1, 3])
+    sim.integrate(sim.t + sim.dt * (n_auto - 1) * (1 if sim.integrator != 'ias15' else 0.2), exact_finish_time=0)
+    expected, _pos = read_shim_log(log, 0)
+    expected = [rt.sabin(b) for b in expected]
+    while len(expected) < n:
+        sim.steps(1)
+        sim.simulationarchive_auto_step = 0
+        raw = rt.save_bytes(sim)
+        sim.save_to_file(fn)
+        expected.append(rt.sabin(raw))
+    counters = dict(long_archives=1, long_archive_snapshots=len(expected))
+    try:
+        with open(fn, 'rb') as f:
+            snaps = rt.parse_archive(f.read())
+        if len(snaps) != len(expected):
+            viol.append(dict(mech='archive:independent-parse-snapshot-count', msg='long archive: file holds %d parseable snapshots, %d were taken' % (len(snaps), len(expected))))
+        sa = rebound.Simulationarchive(fn)
+        if not viol and sa.nblobs != len(expected):
+            viol.append(dict(mech='archive:nblobs:long-archive', msg='reader reports nblobs=%d for an archive of %d snapshots (tmax %r, last snapshot taken at t=%r)' % (sa.nblobs, len(expected), sa.tmax, struct.unpack('<d', expected[-1]['t'])[0])))
+        if not viol:
+            for k in range(len(expected)):
+                et = struct.unpack('<d', expected[k]['t'])[0]
+                if rt.dbits(sa.t[k]) != rt.dbits(et):
+                    viol.append(dict(mech='archive:index-time', msg='long archive: sa.t[%d]=%r, snapshot was taken at t=%r' % (k, sa.t[k], et)))
+                    break
+            if rt.dbits(sa.tmax) != rt.dbits(struct.unpack('<d', expected[-1]['t'])[0]):
+                viol.append(dict(mech='archive:tmax', msg='long archive: tmax=%r, last snapshot at %r' % (sa.tmax, struct.unpack('<d', expected[-1]['t'])[0])))
+            ks = set([0, 1, len(expected) - 1, len(expected) - 2])
+            q = 2
+            while q < len(expected) + 2:
+                ks.update(k_ for k_ in (q - 2, q - 1, q, q + 1) if 0 <= k_ < len(expected))
+                q *= 2
+            ks.update(r.randrange(len(expected)) for _ in range(10))
+            for k in sorted(ks):
+                dk = [q_ for q_ in rt.diff_keys(rt.sabin_sim(sa[k]), expected[k]) if q_ != 'functionpointers']
+                counters['long_archive_loads'] = counters.get('long_archive_loads', 0) + 1
+                if dk:
+                    viol.append(dict(mech='snapshot:loaded-state-differs:long-archive', msg='snapshot %d of %d differs from the live state when taken in %r' % (k, len(expected), dk)))
+                    break
+            last = sa[-1]
+            if rt.dbits(last.t) != rt.dbits(struct.unpack('<d', expected[-1]['t'])[0]):
+                viol.append(dict(mech='snapshot:loaded-state-differs:negative-index', msg='long archive: sa[-1].t=%r, last snapshot taken at %r' % (last.t, struct.unpack('<d', expected[-1]['t'])[0])))
+        del sa
+    except Exception as e:
+        import traceback
+        viol.append(dict(mech='archive:reader-raises:long-archive', msg='%s: %s %s' % (type(e).__name__, e, traceback.format_exc()[-600:])))
+    for p in (fn, log):
+        if os.path.exists(p):
+            os.unlink(p)
+    return dict(violations=viol, cell=['long', len(expected) > 1024, len(expected) > 2048, sim.integrator], counters=counters, sample=dict(hseed=case['hseed'], long=len(expected)))
+
+
 def run_case(case):
+    if case.get('long'):
+        return run_long(case)
     import ctypes, warnings
     warnings.simplefilter('ignore')
     import rebound
@@ -56,7 +135,11 @@ def run_case(case):
     boundaries = []        # (steps_done, t) at every heartbeat
     auto = None            # dict(mode, value, armed_at_steps, armed_at_t)
 
-    spec = gen.random_spec(r, integ=r.choice(['ias15', 'whfast', 'leapfrog', 'mercurius', 'saba', 'eos', 'bs', 'trace', 'janus']), allow_var=False, nmax=3)
+    integ0 = r.choice(['ias15', 'whfast', 'leapfrog', 'mercurius', 'saba', 'eos', 'bs', 'trace', 'janus'])
+    var_from_start = case['hseed'] % 6 == 3
+    if var_from_start:
+        integ0 = r.choice(['ias15', 'bs'])
+    spec = gen.random_spec(r, integ=integ0, allow_var=False, nmax=3)
     sim = gen.build_sim(spec)
     dirn = -1 if case['hseed'] % 5 == 4 else 1       # a fifth of the histories run backwards in time
     sim.dt = dirn * abs(sim.dt)
@@ -75,6 +158,12 @@ def run_case(case):
         sim.heartbeat = hb
     has_var = [False]
     collision_on = [False]
+    if var_from_start and sim.N >= 2:
+        # variational particles (and their configuration) are already part of the FIRST snapshot, against which every later delta is encoded
+        v0 = sim.add_variation()
+        v0.particles[1].x = 1.0
+        has_var[0] = True
+        counters['histories_with_variation_in_first_snapshot'] = 1
 
     def harvest(kind):
         nonlocal logpos
@@ -322,6 +411,15 @@ def run_case(case):
                 gen.set_path(sim, pth, val)
                 if pth in ('ri_mercurius.L', 'ri_trace.S', 'ri_trace.S_peri'):
                     fopts[pth] = val
+        elif 0.62 <= x < 0.745 and has_var[0] and sim.N_var_config > 0 and r.random() < 0.5:
+            # a member of a variational CONFIGURATION changes between two snapshots and nothing else does: lrescale = -1 is the documented
+            # "never rescale" switch; any other value is what an automatic rescaling leaves behind
+            vc = sim.var_config[r.randrange(sim.N_var_config)]
+            val = r.choice([-1.0, vc.lrescale + 230.25850929940458, 0.0 if vc.lrescale else 12.5])
+            op = dict(op='edit_var_config', lrescale=val)
+            vc.lrescale = val
+            counters['var_config_member_edits'] = counters.get('var_config_member_edits', 0) + 1
+            manual_snapshot()
         elif x < 0.70:
             op = dict(op='reset_integrator')
             sim.reset_integrator()
@@ -518,6 +616,8 @@ def plan(tier, seed):
     for i in range(n):
         variant = 'asan' if i % 5 == 4 else 'rel'
         out[variant].append(dict(hseed=r.getrandbits(40), nops=r.choice([8, 14, 25]) if tier == 'quick' else r.choice([10, 25, 60]), variant=variant, heartbeat=r.random() < 0.8))
+    for i in range(6 if tier == 'quick' else 40):
+        out['rel' if i % 3 else 'asan'].append(dict(long=True, hseed=r.getrandbits(40), nsnap=r.choice([1020 + r.randrange(12), 1030 + r.randrange(300), 2040 + r.randrange(20), 2100 + r.randrange(900)]), variant='rel' if i % 3 else 'asan'))
     return out
 
 
@@ -542,7 +642,7 @@ def main(tier, seed):
                     continue
             V.absorb(c, r, crash_mech)
     inc = []
-    for k in ('loads_by_time', 'loads_by_time_at_a_time_shared_by_several_snapshots', 'snapshots_auto', 'snapshots_manual', 'readbacks', 'arrays_shrunk', 'arrays_grown', 'fields_vanished', 'fields_reappeared', 'cadence_checked_step', 'cadence_checked_interval'):
+    for k in ('long_archives', 'long_archive_loads', 'loads_by_time', 'loads_by_time_at_a_time_shared_by_several_snapshots', 'snapshots_auto', 'snapshots_manual', 'readbacks', 'arrays_shrunk', 'arrays_grown', 'fields_vanished', 'fields_reappeared', 'cadence_checked_step', 'cadence_checked_interval'):
         if V.counters.get(k, 0) == 0:
             inc.append('monitor counter %s is zero' % k)
     dead = V.counters.get('process_deaths_outside_archive_code', 0) + V.counters.get('process_deaths_unattributed', 0)
